@@ -142,7 +142,61 @@ fn build(pattern: &str, casei: bool, limit: Option<usize>) -> Result<Regex, Stri
     b.build().map_err(|e| format!("{:?}", e))
 }
 
+const TPL_HAY: &str = "ab\u{20ac}c";
+
+fn hexs(b: &[u8]) -> String {
+    b.iter().map(|x| format!("{:02x}", x)).collect()
+}
+
+/// C12: template operations; `text` is the template, the captures come from the fixed haystack.
+fn tpl(op: &str, re: &Regex, template: &str) -> String {
+    use fancy_regex::Expander;
+    let rest = &op["tpl_".len()..];
+    let (what, kind) = rest.rsplit_once('_').unwrap_or((rest, "default"));
+    let py = kind == "python";
+    let exp = if py { Expander::python() } else { Expander::default() };
+    let caps = match re.captures(TPL_HAY) {
+        Ok(Some(c)) => c,
+        _ => return "NO-CAPTURES".to_string(),
+    };
+    let siblings = || {
+        let s1 = exp.expansion(template, &caps);
+        let mut s2 = String::from("p");
+        exp.append_expansion(&mut s2, template, &caps);
+        let mut v3: Vec<u8> = Vec::new();
+        exp.write_expansion(&mut v3, template, &caps).expect("write");
+        let mut v4: Vec<u8> = Vec::new();
+        exp.write_expansion_vec(&mut v4, template, &caps).expect("write");
+        let mut s5 = String::new();
+        if !py {
+            caps.expand(template, &mut s5);
+        } else {
+            s5 = s1.clone();
+        }
+        format!("S:{}|{}|{}|{}|{}", hexs(s1.as_bytes()), hexs(s2.as_bytes()), hexs(&v3), hexs(&v4), hexs(s5.as_bytes()))
+    };
+    match what {
+        "expand" => format!("O:{}", hexs(exp.expansion(template, &caps).as_bytes())),
+        "siblings" => siblings(),
+        "check" => match exp.check(template, re) {
+            Ok(()) => "OK".to_string(),
+            Err(_) => "ERR".to_string(),
+        },
+        "escape" => format!("O:{}", hexs(exp.expansion(&exp.escape(template), &caps).as_bytes())),
+        "all" => {
+            let _ = siblings();
+            let _ = exp.check(template, re);
+            let _ = exp.expansion(&exp.escape(template), &caps);
+            "DONE".to_string()
+        }
+        _ => "BAD-OP".to_string(),
+    }
+}
+
 fn run(op: &str, re: &Regex, text: &str, pos: usize, arg: usize) -> String {
+    if op.starts_with("tpl_") {
+        return tpl(op, re, text);
+    }
     match op {
         "search" => match re.captures_from_pos(text, pos) {
             Ok(Some(c)) => {
